@@ -33,6 +33,7 @@ import Ymq.Lemmas.CrtLemmas
 import Ymq.Lemmas.CrtEstimate
 import Ymq.Lemmas.CrtColumns
 import Ymq.Lemmas.NttRoots
+import Ymq.Lemmas.NttPipeline
 import Ymq.Lemmas.PolyDft
 import Ymq.Lemmas.PolyZMod
 import Ymq.Lemmas.PolyMiddle
@@ -614,6 +615,28 @@ theorem ntt_inplace_spec (n logsize : Nat) (m : Ymq.Crt.Mzp) (hm : Ymq.Crt.new n
               (fun t => Ymq.Crt.mfe m (v.getD (Ymq.Crt.bitrev k t) []) j) i := by
   obtain ⟨rts, e, hr⟩ := Ymq.Crt.rootsPacked_ok n logsize m hm hK
   exact ⟨rts, e, Ymq.Crt.nttInplace_spec m (Ymq.Crt.tabOk_of_new n logsize m hm) rts _ hr fwd k v depth h1 hk hv hd⟩
+
+/-- **The transform pipeline of `convolve_modn_ntt` is the cyclic convolution per prime** (`dft_conv` (3)
+instantiated by the word-level model): for a context built by the model of `new`, `1 ≤ K ≤ logsize ≤ 31` and
+two vectors `f1`, `f2` of `2^K` elements of reduced residues (as `from_mint` leaves them at the
+bit-reversed positions), the forward `ntt_inplace` of both, `mzp.mul`, the swap loop
+`if i < irev { swap }` and the inverse `ntt_inplace` reach no panic site, every residue stays reduced,
+and residue `j` of element `i` of the result is `Σ_a x_a·y_((i - a) mod 2^K)` in `ZMod p_j`
+(`Ymq.Dft.cyc`), `x_t = f1[bitrev K t]_j`, `y_t = f2[bitrev K t]_j` read out of their Montgomery forms.
+Not included: `from_mint` before and `redc` (`crt_spec` + `zn.redc`) after, hence the statement modulo
+`n`; those two ends are compared by K/O (`pf_convolve_ntt` through the whole word-level model). -/
+theorem ntt_pipeline_spec (n logsize : Nat) (m : Ymq.Crt.Mzp) (hm : Ymq.Crt.new n logsize = some m)
+    (hK : m.k ≤ 31) (K : Nat) (h1 : 1 ≤ K) (hk : K ≤ m.k) (f1 f2 : List (List Nat))
+    (hf1 : Ymq.Crt.VecOk m f1 (2 ^ K)) (hf2 : Ymq.Crt.VecOk m f2 (2 ^ K)) :
+    ∃ rts g1 g2 h r, Ymq.Crt.rootsPacked m = some rts ∧ Ymq.Crt.nttInplace m rts K f1 0 true = some g1 ∧
+      Ymq.Crt.nttInplace m rts K f2 0 true = some g2 ∧ Ymq.Crt.mulV m g1 g2 = some h ∧
+      Ymq.Crt.nttInplace m rts K (Ymq.Crt.swapLoop K (2 ^ K) 0 h) 0 false = some r ∧
+      Ymq.Crt.VecOk m r (2 ^ K) ∧
+      ∀ j, j < m.w → ∀ i, i < 2 ^ K →
+        Ymq.Crt.mfe m (r.getD i []) j =
+          Ymq.Dft.cyc (2 ^ K) (fun t => Ymq.Crt.mfe m (f1.getD (Ymq.Crt.bitrev K t) []) j)
+            (fun t => Ymq.Crt.mfe m (f2.getD (Ymq.Crt.bitrev K t) []) j) i :=
+  Ymq.Crt.nttPipeline_spec n logsize m hm hK K h1 hk f1 f2 hf1 hf2
 
 end CrtSpecs
 
